@@ -160,7 +160,7 @@ where
         in_laidx: usize,
         in_pstack: &mut Vec<StIdx<StorageT>>,
         astack: &mut Vec<AStackType<LexerTypesT::LexemeT, ActionT>>,
-        spans: &mut Vec<Span>,
+        spans: &mut Vec<(Span, bool)>,
     ) -> (usize, Vec<Vec<ParseRepair<LexerTypesT::LexemeT, StorageT>>>) {
         // This function implements a minor variant of the algorithm from "Repairing syntax errors
         // in LR parsers" by Rafael Corchuelo, Jose A. Perez, Antonio Ruiz, and Miguel Toro.
@@ -483,7 +483,7 @@ fn apply_repairs<
     mut laidx: usize,
     pstack: &mut Vec<StIdx<StorageT>>,
     astack: &mut Option<&mut Vec<AStackType<LexerTypesT::LexemeT, ActionT>>>,
-    spans: &mut Option<&mut Vec<Span>>,
+    spans: &mut Option<&mut Vec<(Span, bool)>>,
     repairs: &[ParseRepair<LexerTypesT::LexemeT, StorageT>],
 ) -> usize
 where
